@@ -43,6 +43,10 @@ pub struct Profile {
     pub alias_pct: u64,
     /// share of the 'same block' macro slot given to the pyramid macro
     pub pyramid_pct: u64,
+    /// chance that a block advance carries a random sub-second offset
+    pub subsecond_pct: u64,
+    /// chance (per admin op) of a registry operation that must be refused (re-add / remove absent)
+    pub bad_registry_pct: u64,
 }
 
 impl Default for Profile {
@@ -67,6 +71,8 @@ impl Default for Profile {
             shutdown_pct: 25,
             alias_pct: 15,
             pyramid_pct: 50,
+            subsecond_pct: 50,
+            bad_registry_pct: 25,
         }
     }
 }
@@ -119,12 +125,24 @@ pub fn rand_cfg(rng: &mut Rng, p: &Profile) -> DeployCfg {
         let mut extra = vamms[0].clone();
         extra.live = false;
         if rng.chance(p.mismatch_decimals_pct, 100) {
-            extra.decimals = Some(dec + 1);
-            extra.quote_reserve *= 10;
-            extra.base_reserve *= 10;
-            extra.toll *= 10;
-            extra.spread *= 10;
-            extra.fluct *= 10;
+            if dec > 6 && rng.chance(1, 2) {
+                // fewer decimals than the engine
+                let nd = *rng.pick(&[6u8, dec - 1]);
+                let f = pow10(dec - nd);
+                extra.decimals = Some(nd);
+                extra.quote_reserve = (extra.quote_reserve / f).max(pow10(nd));
+                extra.base_reserve = (extra.base_reserve / f).max(pow10(nd));
+                extra.toll /= f;
+                extra.spread /= f;
+                extra.fluct /= f;
+            } else {
+                extra.decimals = Some(dec + 1);
+                extra.quote_reserve *= 10;
+                extra.base_reserve *= 10;
+                extra.toll *= 10;
+                extra.spread *= 10;
+                extra.fluct *= 10;
+            }
         }
         vamms.push(extra);
     }
@@ -473,7 +491,9 @@ impl Gen {
     }
 
     pub fn advance(&mut self, h: &mut History, r: &mut Report, blocks: u64, secs: u64) -> Rc<Step> {
-        h.step(Op::Advance { blocks, secs }, r)
+        // real block times carry arbitrary sub-second parts
+        let nanos = if self.rng.chance(self.prof.subsecond_pct, 100) { self.rng.below(1_000_000_000) } else { 0 };
+        h.step(Op::Advance { blocks, secs, nanos }, r)
     }
 
     pub fn rand_advance(&mut self, h: &mut History, r: &mut Report) -> Rc<Step> {
@@ -571,7 +591,11 @@ impl Gen {
                 h.step(Op::Vamm { sender, vamm: v, msg: vm::ExecuteMsg::SetOpen { open: !open } }, r)
             }
             2 => {
-                let reg = h.last.vamms[v].registered;
+                let mut reg = h.last.vamms[v].registered;
+                if self.rng.chance(self.prof.bad_registry_pct, 100) {
+                    // re-add a registered vAMM / remove an absent one: must be refused
+                    reg = !reg;
+                }
                 let owner = h.last.ins_owner.clone();
                 let msg = if reg { ins::ExecuteMsg::RemoveVamm { vamm: Self::vaddr(h, v) } } else { ins::ExecuteMsg::AddVamm { vamm: Self::vaddr(h, v) } };
                 h.step(Op::Insurance { sender: owner, msg }, r)
